@@ -65,6 +65,7 @@ class SimEnv:
     def __init__(self, seed: int, net_seed: Optional[int] = None, sys_fault_cfg: Optional[dict] = None,
                  log_level: int = logging.WARNING):
         self.seed = seed
+        self.cleanups = []          # run at exit, whatever happened (scratch files of a world etc.)
         self.loop = SimLoop()
         self.net = SimNet(self.loop, net_seed if net_seed is not None else seed, sys_fault_cfg)
         self.log = _LogCapture()
@@ -138,6 +139,11 @@ class SimEnv:
             except BaseException:
                 pass
         finally:
+            for fn in getattr(self, "cleanups", []):
+                try:
+                    fn()
+                except Exception:
+                    pass
             root = logging.getLogger()
             root.handlers[:] = self._old_handlers
             root.setLevel(self._old_level)
